@@ -45,12 +45,17 @@ def run(ck, ctx):
     ck.rule("R05.7", "a queue-time command error always aborts: on the in_transaction edge of the command-parse error arm every "
                      "path sets transaction_errors = true; unknown commands in MULTI do the same")
     ck.nd("equality with sequential execution; isolation against other connections (EXEC is a sequence of independent shard awaits)")
+    ck.rule("R05.10", "`differs from its value when WATCH was issued` is decided by exact structural equality: the PartialEq impls of Value and "
+                      "of every stored type under src/redis/data are derived, or compare field against the same field with `==` and nothing else "
+                      "(no tolerance, no arithmetic, no projection of a subset of the fields): a modification that the comparison cannot see "
+                      "lets EXEC run")
     for cfg in ctx.configs:
         prog = ctx.prog(cfg)
         ck.configs.append(cfg)
         ck.fn_count += len(prog.fns)
         _rules(ck, prog, cfg)
         _executor_twin(ck, prog, cfg)
+        _r0510(ck, prog, cfg)
 
 
 def _self_field(fn, place_or_operand, is_place=False):
@@ -526,3 +531,50 @@ def _executor_twin(ck, prog, cfg):
             st["rv"]["k"] == "use" and st["rv"]["a"].get("c", "").strip() in ("const true", "true")]
     ck.check(bool(sets) and bool(_xresets(f)["queued_commands"]), "R05.5", "executor:execute_multi:opens" + _tag(cfg),
              "MULTI does not set in_transaction and start from an empty queue", f.where(), detail="in_transaction = true; queue cleared")
+
+
+# ------------------------------------------------------------------------------------------------
+WHOLE_CONTENT = (r"redis::data::sds::SDS::as_bytes$",)      # accessors that expose the whole content of the value
+
+
+def _r0510(ck, prog, cfg):
+    n = 0
+    for f in prog.lib_fns():
+        if not f.file.startswith("src/redis/data/") or f.d.get("implements") not in ("std::cmp::PartialEq::eq", "std::cmp::PartialEq::ne"):
+            continue
+        n += 1
+        ty = (f.impl_self or "").rsplit("::", 1)[-1]
+        terms = [f.term(b) for b in f.reachable_blocks()]
+        derived = all("m:PartialEq" in str(t.get("x", "")) for t in terms if t["k"] in ("call", "switch"))
+        if derived:
+            ck.ok("R05.10", "eq:%s%s" % (ty, _tag(cfg)), detail="derived")
+            continue
+        why = None
+        for b, t in f.calls():
+            if is_callee(t, *WHOLE_CONTENT):
+                continue
+            if not is_callee(t, r"as std::cmp::PartialEq(<.*>)?>::(eq|ne)$"):
+                why = "calls %s" % (callee(t) or "?").rsplit("::", 2)[-2:]
+                break
+            a = src_of_operand(f, t["args"][0], through_calls=TRANSPARENT)
+            o = src_of_operand(f, t["args"][1], through_calls=TRANSPARENT)
+            field_pair = a.kind == "path" and o.kind == "path" and {a.root, o.root} == {"self", "other"} and a.fields == o.fields and a.fields
+            # the whole content through the same accessor on both sides: self.as_bytes() == other.as_bytes()
+            whole_pair = False
+            if a.kind == "call" and o.kind == "call" and callee(a.term) == callee(o.term) and is_callee(a.term, *WHOLE_CONTENT) and not a.fields and not o.fields:
+                ra = src_of_operand(f, a.term["args"][0], through_calls=TRANSPARENT)
+                ro = src_of_operand(f, o.term["args"][0], through_calls=TRANSPARENT)
+                whole_pair = ra.kind == "path" and ro.kind == "path" and {ra.root, ro.root} == {"self", "other"} and not ra.fields and not ro.fields
+            if not whole_pair and a.kind == "path" and o.kind == "path" and {a.root, o.root} == {"self", "other"} and not a.fields and not o.fields:
+                # provenance looked through the accessor: require that accessor to be a whole-content one, applied once to each side
+                whole_pair = sum(1 for _, t2 in f.calls() if is_callee(t2, *WHOLE_CONTENT)) == 2
+            if not (field_pair or whole_pair):
+                why = "compares %s with %s" % (a.path(), o.path())
+                break
+        for b, i, st in f.stmts():
+            if st["rv"]["k"] == "bin" and st["rv"]["op"] not in ("BitAnd", "BitOr", "Eq", "Ne"):
+                why = why or "computes %s at line %s" % (st["rv"]["op"], st["ln"])
+        ck.check(why is None, "R05.10", "eq:%s%s" % (ty, _tag(cfg)),
+                 "equality of %s is not structural (%s): WATCH's `did the key change` test (Option<Value> == snapshot) and every other value "
+                 "comparison would treat two different stored values as equal" % (ty, why), f.where(), detail="field-by-field ==")
+    ck.floor("R05.10" + _tag(cfg), n, 5)
